@@ -1,7 +1,7 @@
 \* EXPECTED VIOLATION CancelEndsAll: as coded
 CONSTANTS HA = 2 HB = 0 ForkAt = 0 Start = 0 MaxIter = 2 WithCancel = TRUE
   Peers = {"honest", "corrupt"}
-  Verify = TRUE Retry = TRUE CheckedStore = TRUE CtxAwareSends = FALSE
+  Verify = TRUE Retry = TRUE CheckedStore = TRUE CtxAwareSends = FALSE FieldsChecked = FALSE
   ClassOf <- MCIdentity EmptyA <- MCEmptyMix EmptyB <- MCNoEmpty
 SPECIFICATION LiveSpec
 VIEW view
